@@ -21,9 +21,11 @@ CASE_TIMEOUT = 30
 RULE = ("automatic mode, coarse: every schedule (which thread runs next) of length <= 6 (quick) / 8 (thorough) at the granularity of stream "
         "writes, sleeps, thread start and join, for 15 bodies (set_message while spinning, work, raising RuntimeError / KeyboardInterrupt / "
         "SystemExit / GeneratorExit at different points), then random schedules up to length 40; automatic mode, fine (every operation on "
-        "the stop event and every read / write of _auto_thread, _message, _current, _started, _update_time is a scheduling point): complete "
-        "enumeration up to a preemption bound - all schedules 'caller a steps, spinner b steps, caller c steps, spinner d steps, then the caller "
-        "whenever it can run' with at most 3 switches over step counts up to the length of the caller's program - for the same bodies x "
+        "the stop event and every read / write of _auto_thread, _message, _current, _started, _update_time is a scheduling point): enumeration "
+        "up to a preemption bound - schedules 'caller a steps, spinner b steps, caller c steps, spinner d steps, then the caller whenever it "
+        "can run': ALL (a, b) with c = d = 0 for a over the caller's whole program and b over one and a half rounds of the spinner's loop, "
+        "and a grid of (a, b, c, d) (quick: every second a and c, b in {1,3,9,12}, d in {2,3,12}; thorough: every a and c, every second b, "
+        "d in {1,2,3,5,8,12}) - for the same bodies x "
         "indicator value lists of length 2 / 4 / 5 x two formats x interval 100 / 250, then random schedules up to length 120; the two real "
         "threads of the implementation are driven by a deterministic scheduler on a virtual clock; manual mode: call sequences of advance / "
         "set_message / finish with clock steps {0,40,100,250} ms, default and varied parameters; "
